@@ -340,7 +340,7 @@ std::string handle(const std::string& op, Args& a)
 				throw BadArgs("vector op " + o.k);
 		}
 		a.end();
-		return run_forked([&](Out& o) {
+		return run([&](Out& o) {   // generated histories are valid: in-process; check.py re-runs forked if the process dies
 			for(auto& p : ops)
 			{
 				if(p.k == "N")
@@ -425,7 +425,7 @@ std::string handle(const std::string& op, Args& a)
 				throw BadArgs("matrix op " + o.k);
 		}
 		a.end();
-		return run_forked([&](Out& o) {
+		return run([&](Out& o) {   // generated histories are valid: in-process; check.py re-runs forked if the process dies
 			for(auto& p : ops)
 			{
 				if(p.k == "N")
@@ -491,6 +491,61 @@ std::string handle(const std::string& op, Args& a)
 					o << (int) A.Diagonal();
 			}
 		});
+	}
+	if(op == "c04.mchain" || op == "c04.vchain")
+	{
+		// chained compound assignment ((x op0 b0) op1 b1) ... on ONE object; spelled so that it compiles whether
+		// operator+=/-= return a reference or a value (nothing is bound to a non-const reference)
+#define HZ_STEP(x, s, b) ((s) == '+' ? ((x) += (b)) : ((x) -= (b)))
+		std::string sg = a.tok();
+		if(sg.size() < 1 || sg.size() > 3 || sg.find_first_not_of("+-") != std::string::npos)
+			throw BadArgs("signs");
+		if(op == "c04.mchain")
+		{
+			Matrix X = rd_mat(a);
+			std::vector<Matrix> b;
+			for(size_t i = 0; i < sg.size(); i++)
+				b.push_back(rd_mat(a));
+			a.end();
+			bool conf = X.Rows() > 0;
+			for(auto& m : b)
+				conf = conf && m.Rows() == X.Rows() && m.Columns() == X.Columns();
+			return run_if(conf, [&](Out& o) {
+				Matrix X2(X);
+				if(sg.size() == 1)
+					HZ_STEP(X, sg[0], b[0]);
+				else if(sg.size() == 2)
+					HZ_STEP(HZ_STEP(X, sg[0], b[0]), sg[1], b[1]);
+				else
+					HZ_STEP(HZ_STEP(HZ_STEP(X, sg[0], b[0]), sg[1], b[1]), sg[2], b[2]);
+				put(o, X);
+				Matrix r(HZ_STEP(X2, sg[0], b[0]));	  // value of the expression, then the object
+				put(o, r);
+				put(o, X2);
+			});
+		}
+		Vector x = rd_vec(a);
+		std::vector<Vector> b;
+		for(size_t i = 0; i < sg.size(); i++)
+			b.push_back(rd_vec(a));
+		a.end();
+		bool conf = true;
+		for(auto& v : b)
+			conf = conf && v.Size() == x.Size();
+		return run_if(conf, [&](Out& o) {
+			Vector x2(x);
+			if(sg.size() == 1)
+				HZ_STEP(x, sg[0], b[0]);
+			else if(sg.size() == 2)
+				HZ_STEP(HZ_STEP(x, sg[0], b[0]), sg[1], b[1]);
+			else
+				HZ_STEP(HZ_STEP(HZ_STEP(x, sg[0], b[0]), sg[1], b[1]), sg[2], b[2]);
+			put(o, x);
+			Vector r(HZ_STEP(x2, sg[0], b[0]));
+			put(o, r);
+			put(o, x2);
+		});
+#undef HZ_STEP
 	}
 	throw BadOp();
 }
